@@ -24,14 +24,21 @@ static int slack_ok(void)
 }
 static void reset(int d, int m, int s, int use_static)
 {
-	depth = d; msglen = m; slack = s;
-	free(rawstore);
-	free(mq);
+	/* warm restart: when the geometry is the one of the previous execution, every other reset re-initialises the SAME
+	 * descriptor over the SAME memory, whatever state the previous execution left it in (messages claimed, sent, held) */
+	static unsigned warm;
+	static int pmis = -1;
+	int same = mq && rawstore && d == depth && m == msglen && s == slack && pmis == misalign && (warm++ & 1);
+	depth = d; msglen = m; slack = s; pmis = misalign;
 	size_t len = (size_t)d * m + s;
-	rawstore = malloc(len + misalign ? len + misalign : 1);    /* the queue's memory ends where the heap block ends */
-	store = rawstore + misalign;
+	if (!same) {
+		free(rawstore);
+		free(mq);
+		rawstore = malloc(len + misalign ? len + misalign : 1);    /* the queue's memory ends where the heap block ends */
+		store = rawstore + misalign;
+		mq = malloc(sizeof(*mq));
+	}
 	memset(store, 0xA5, len);
-	mq = malloc(sizeof(*mq));
 	if (use_static && m == 12) {
 		/* macro arguments spelled as unparenthesised expressions */
 		messageq_t q = MESSAGEQ_VAR_INIT(store, (size_t)d * 12 + s, 8 + 4);
